@@ -1,8 +1,16 @@
-"""P_out -- output pipeline (C19) and the rest of Cache (C18).
+"""P_out -- the output pipeline (C19) and the rest of Cache (C18).  Loaded after C19.py and P_sel.py.
 
-Sidecar contracts of lena/output/write.py (`Write._make_filename`, the nested `is_writable` of Write.run: both PROVED here and
-registered under the keys of the assumed contracts of C19.py, which they replace), lena/output/make_filename.py,
-lena/output/latex_to_pdf.py, lena/output/pdf_to_png.py, lena/output/render_latex.py and Cache.alter_sequence.
+lena/output/write.py        Write._make_filename and the nested is_writable of Write.run: PROVED here and registered under the
+                            keys of the assumed (trusted) contracts of C19.py, which they replace; `writable(data, context)`
+                            is now a defined predicate.  Write.run (contract in C19.py) is proved against them; the
+                            preconditions of _make_filename are added to its well-formedness assumption on contexts.
+lena/output/make_filename.py MakeFilename.__init__ (all 32 argument combinations + non-strings), __call__ (configurations of
+                            one or two keys, with / without a static context) against the reference function mf_context
+                            written from the docstring, _set_context; lemma "a pending suffix is applied exactly once".
+lena/output/latex_to_pdf.py LaTeXToPDF.run, lena/output/pdf_to_png.py PDFToPNG.run: the DECISION which files are converted
+                            (qualkey "...#C19"; the C10 clauses of the same functions are in P_sel.py); the external
+                            command is an assumed action that creates the target file.
+lena/flow/cache.py          Cache.alter_sequence.
 
 Strings are symbolic `Str` values (sort Key); `a + b` is the function kcat(a, b); a context item that is used as a string
 must be one (obligation at the use, discharged from the `requires` clauses that type the output keys)."""
@@ -320,8 +328,51 @@ def wrap_upd_spec(ix):
     ix.spec_names["upd_spec"] = sp
 
 
+def lem_exactly_once(ip, st):
+    """over the reference function of MakeFilename.__call__ (which the code is proved to compute): in the pipeline
+    MakeFilename(suffix=..), MakeFilename(filename=..), MakeFilename(filename=..) the suffix ends up in the file name
+    exactly once -- the element that makes the name consumes the pending suffix, a later one finds nothing to apply
+    (and replaces the name only with overwrite)"""
+    from pyvc.dicts import key_as_val
+    from pyvc.interp import VC
+    reg = ip.reg
+    reg.need_val()
+    a = ip.make("Self[%s]" % mf_class(("suffix",)), "a", st)
+    b = ip.make("Self[%s]" % mf_class(("filename",)), "b", st)
+    b2 = ip.make("Self[%s]" % mf_class(("filename",)), "b2", st)
+    c0 = reg.new("c0", "Val")
+    ko = reg.key("output")
+    st.assume(T("(isD %s)" % c0.s, "Bool"))
+    st.assume(T("(not (vhas %s %s))" % (c0.s, ko.s), "Bool"))          # a value that has no output context yet
+    fmt = lambda o: st.heap[st.heap[st.heap[o.cid].fields["_methods"].cid].items[0].items[1].cid].fields["fmt"].t
+    c1, _ = _mf_walk(ip, st, a, c0)
+    c2, _ = _mf_walk(ip, st, b, c1)
+    c3, _ = _mf_walk(ip, st, b2, c2)
+    suf = _fmt_term(ip, "fmt_apply", [fmt(a), c0], "Key")
+    name = _fmt_term(ip, "fmt_apply", [fmt(b), c1], "Key")
+    name2 = _fmt_term(ip, "fmt_apply", [fmt(b2), c2], "Key")
+    e = reg.key("")
+    st.assume(NOT(_fmt_term(ip, "fmt_missing", [fmt(a), c0], "Bool")))
+    st.assume(NOT(_fmt_term(ip, "fmt_missing", [fmt(b), c1], "Bool")))
+    st.assume(NOT(EQ(suf, e)))
+    ip.vcs.append(VC("cover requires", "cover", list(st.pc), T("false", "Bool"), ""))
+    out = lambda c, k: T("(select (dm (vget %s %s)) %s)" % (c.s, ko.s, reg.key(k).s), "Opt")
+    some = lambda k: T("(some %s)" % key_as_val(ip, k).s, "Opt")
+    cat = lambda x, y: T("(kcat %s %s)" % (x.s, y.s), "Key")
+    ow2 = st.heap[b2.cid].fields["_overwrite"].t
+    ip.emit("lemma", "after the naming element: filename == '' + name + suffix", st, EQ(out(c2, "filename"), some(cat(cat(e, name), suf))))
+    ip.emit("lemma", "after the naming element: the pending suffix is gone", st, EQ(out(c2, "suffix"), T("none", "Opt")))
+    ip.emit("lemma", "a later naming element without overwrite changes nothing", st, OR(ow2, EQ(c3, c2)))
+    ip.emit("lemma", "a later naming element with overwrite: the new name carries no suffix any more", st,
+            OR(NOT(ow2), _fmt_term(ip, "fmt_missing", [fmt(b2), c2], "Bool"),
+               EQ(out(c3, "filename"), some(cat(cat(e, name2), e)))))
+
+
 def register_make_filename(ix):
     wrap_upd_spec(ix)
+    from pyvc.verify import Lemma
+    ix.lemmas.append(Lemma("MakeFilename: a pending suffix is applied exactly once", MF, ["C19"], lem_exactly_once,
+                           notes="over the reference function mf_context of the __call__ contracts"))
     for n, f in [("fmt_missing", sp_fmt_missing), ("fmt_apply", sp_fmt_apply), ("fmt_malformed", sp_fmt_malformed),
                  ("mf_context", sp_mf_context), ("mf_modified", sp_mf_modified)]:
         ix.spec_names[n] = f
@@ -555,6 +606,92 @@ def register_pdf_to_png(ix):
         notes="the C10 clauses of this function (pass-through, exact context updates) are proved in P_sel"))
 
 
+# ------------------------------------------------------------------------------------------------ Cache.alter_sequence
+CA = "lena/flow/cache.py"
+AD = "lena/core/adapters.py"
+SO = "lena/core/source.py"
+ME = "lena/core/meta.py"
+
+
+def register_cache(ix):
+    """C18, the part C18.py leaves open: Cache.alter_sequence (cache_exists / drop_cache / run are proved there).
+    The constructors it calls are abstracted by assumed cases of their contracts that RECORD the arguments in ghost
+    fields: what is proved is the decision -- which Cache is hoisted, that everything before it is dropped, that an
+    unfilled / recompute Cache leaves the sequence alone, and that nothing on disk is touched."""
+    ix.add_class(ClassSpec("SourceEl_of_cache", AD, alias_of="SourceEl", fields={"_el": "Inst[Cache]", "_call_name": "Str"}))
+    se = ix.by_key[(AD, "SourceEl.__init__")]
+    se.cases.append(Contract(
+        AD, "SourceEl.__init__", name="SourceEl.__init__[Cache element, method name]", trusted=True,
+        params={"self": "Self[SourceEl0]", "el": "Inst[Cache]", "call": "Str"}, post_class="SourceEl_of_cache",
+        ensures=["self._el is el", "self._call_name == call"], modifies=["self._el", "self._call_name"],
+        notes="assumed: SourceEl(cache, call=name) keeps the element and calls its method `name` (ghost field _call_name)"))
+    so = ix.by_key[(SO, "Source.__init__")]
+    for k in range(3):
+        fields = {"_first": "Inst[SourceEl_of_cache]", "_n_tail": "Int"}
+        for j in range(k):
+            fields["_tail_%d" % j] = "Obj"
+        ix.add_class(ClassSpec("Source_hoisted_%d" % k, SO, alias_of="Source", fields=fields))
+        so.cases.append(Contract(
+            SO, "Source.__init__", name="Source.__init__[SourceEl of a Cache first, %d tail elements]" % k, trusted=True,
+            params={"self": "Self[Source]", "args": "Tuple[%s]" % ",".join(["Inst[SourceEl_of_cache]"] + ["Obj"] * k)},
+            vararg="args", post_class="Source_hoisted_%d" % k,
+            ensures=["self._first is args[0]", "self._n_tail == %d" % k] + ["self._tail_%d is args[%d]" % (j, j + 1) for j in range(k)],
+            modifies=["self.%s" % f for f in fields],
+            notes="assumed: Source(first, *tail) keeps its arguments in this order (ghost fields _tail_i, _n_tail)"))
+    # (a tail whose second element is itself a Cache object: the two-cache pipelines of the property)
+    ix.add_class(ClassSpec("Source_hoisted_2c", SO, alias_of="Source",
+                           fields={"_first": "Inst[SourceEl_of_cache]", "_n_tail": "Int", "_tail_0": "Obj", "_tail_1": "Inst[Cache]"}))
+    so.cases.append(Contract(
+        SO, "Source.__init__", name="Source.__init__[SourceEl of a Cache first, element, Cache]", trusted=True,
+        params={"self": "Self[Source]", "args": "Tuple[Inst[SourceEl_of_cache],Obj,Inst[Cache]]"},
+        vararg="args", post_class="Source_hoisted_2c",
+        ensures=["self._first is args[0]", "self._n_tail == 2", "self._tail_0 is args[1]", "self._tail_1 is args[2]"],
+        modifies=["self._first", "self._n_tail", "self._tail_0", "self._tail_1"],
+        notes="assumed: Source(first, *tail) keeps its arguments in this order (ghost fields _tail_i, _n_tail)"))
+    if (ME, "flatten") not in ix.by_key:
+        ix.add(Contract(ME, "flatten", props=[], params={"seq": "Any"}, inline=True))
+    HIT = "(not {c}._recompute and fs_exists({c}._filename))"
+
+    def hoisted(c, tail):
+        return ("is_instance_of(result, 'Source') and result._first._el is %s and result._first._call_name == '_load_flow' "
+                "and result._n_tail == %d" % (c, len(tail))) + "".join(" and result._tail_%d is %s" % (j, t) for j, t in enumerate(tail))
+    NOCACHE = lambda i: ["not is_instance_of(seq[%d], 'Cache')" % i, "not is_instance_of(seq[%d], 'LenaSequence')" % i]
+    ix.add(Contract(
+        CA, "Cache.alter_sequence", props=["C18"], self_class="static",
+        cases=[
+            # docstring: "If the Sequence seq contains a Cache, which has an up-to-date cache, a Source is built based on
+            # the flattened seq and returned.  Otherwise the seq is returned unchanged."
+            Contract(CA, "Cache.alter_sequence", name="Cache.alter_sequence[a single Cache]", self_class="static",
+                     ghost={"fs": True}, params={"seq": "Inst[Cache]"}, result="Any", raises={},
+                     ensures=[HIT.format(c="seq") + " implies " + hoisted("seq", []),
+                              "not " + HIT.format(c="seq") + " implies result is seq"]),
+            Contract(CA, "Cache.alter_sequence", name="Cache.alter_sequence[(element, Cache, element)]", self_class="static",
+                     ghost={"fs": True}, params={"seq": "Tuple[Obj,Inst[Cache],Obj]"}, result="Any", raises={},
+                     requires=NOCACHE(0) + NOCACHE(2),
+                     # everything before the filled cache is dropped (the upstream is not even part of the new flow)
+                     ensures=[HIT.format(c="seq[1]") + " implies " + hoisted("seq[1]", ["seq[2]"]),
+                              "not " + HIT.format(c="seq[1]") + " implies result is seq"]),
+            Contract(CA, "Cache.alter_sequence", name="Cache.alter_sequence[(Cache, element, Cache)]", self_class="static",
+                     ghost={"fs": True}, params={"seq": "Tuple[Inst[Cache],Obj,Inst[Cache]]"}, result="Any", raises={},
+                     requires=NOCACHE(1),
+                     # the LAST filled cache is used; a later cache that is not filled (or recompute=True) stays in the tail
+                     ensures=[HIT.format(c="seq[2]") + " implies " + hoisted("seq[2]", []),
+                              "not " + HIT.format(c="seq[2]") + " and " + HIT.format(c="seq[0]") + " implies " +
+                              hoisted("seq[0]", ["seq[1]", "seq[2]"]),
+                              "not " + HIT.format(c="seq[2]") + " and not " + HIT.format(c="seq[0]") + " implies result is seq"]),
+        ]))
+
+
+def register_shared(ix):
+    """the output elements proved in P_sel for C10 (selection, exact context updates: nothing but output.filetype /
+    fileext / changed is touched, so output.changed of an upstream Write stays as it is) also belong to the chain of C19"""
+    RL = "lena/output/render_latex.py"
+    for key in ((RL, "RenderLaTeX.run"), (RL, "RenderLaTeX_csv.run"), (PP, "PDFToPNG.run")):
+        c = ix.by_key.get(key)
+        if c is not None and "C19" not in c.props:
+            c.props.append("C19")
+
+
 def replace(ix, c):
     """register c under its key INSTEAD of the contract registered there before (the assumed contracts of C19.py)"""
     old = ix.by_key.get(c.key)
@@ -569,3 +706,5 @@ def register(ix):
     register_make_filename(ix)
     register_latex_to_pdf(ix)
     register_pdf_to_png(ix)
+    register_cache(ix)
+    register_shared(ix)
